@@ -222,11 +222,23 @@ def scenario(ctx, nops, first, use_bind):
             else:
                 if ctxmgr is not None:
                     ctxmgr.__exit__(None, None, None)
+            left_proxied = ctxmgr is not None and server._addr is not ctxmgr._save_addr
         finally:
             if server._addr is not getattr(ctxmgr, '_save_addr', server._addr):
                 server._addr = ctxmgr._save_addr
         if use_bind:
-            sent = R.sent[start:]
+            if left_proxied:
+                what = 'that raised ' if raised else ''
+                raise Violation(f'after a bind() block {what}the server still sends through the bundling proxy: later '
+                                f'commands never reach the wire (history {hist})', None, data('bind-restore'))
+            # a command issued after the block goes out on its own
+            n_before = len(R.sent)
+            post = nod.Group(server)
+            after = R.sent[n_before:]
+            if [a_[0] for a_ in after] != ['msg'] or after[0][1][:2] != ['/g_new', post.node_id]:
+                raise Violation(f'a command issued after the bind() block did not reach the wire on its own: {after}',
+                                None, data('bind-after'))
+            sent = R.sent[start:n_before]
             expect = []
             for seg, sid in zip(segments, syncs):
                 if seg:
